@@ -127,7 +127,10 @@ def impl(case):
 def coq_input(case):
     with warnings.catch_warnings():
         warnings.simplefilter("ignore")
-        d = build(case)
+        try:
+            d = build(case)
+        except Exception:  # noqa: BLE001  (the XML build path failed to load: the implementation outcome of the case is that error;
+            d = build(dict(case, build="objects"))     #  the model is still given the definition, built from objects)
     dump = xmlcorr.dump_definition(d)
     return f"({xmlcorr.copt(d.xtce_schema_uri)}, {core.cstr(DATE)}, {xmlcorr.dump_to_xdoc_coq(dump)})"
 
